@@ -160,6 +160,9 @@ func (d *vRandDriver) step(emit func(vEvent)) bool {
 			if prof == "faults" && d.r.Intn(15) == 0 {
 				st.Shape = "nil"
 			}
+			if prof == "faults" && d.r.Intn(25) == 0 {
+				st.Shape = "embnil"
+			}
 		}
 		if d.r.Intn(50) == 0 {
 			st.NoCtx = true
